@@ -35,6 +35,7 @@ C_TRUNC = 20.0          # truncation limited comparisons: C_TRUNC * epsrel * n_s
 TOL_EXACT = 1e-10       # comparisons that involve no truncation (own dense simulation, ancilla PTs)
 TOL_HEUN = 1e-11        # field vs Heun recursion on the method's own states (pure float arithmetic)
 TOL_TIME = 1e-12
+BATH_MIN = 5e-3         # a case with coupled baths counts as non-trivial only if the bath moves the states by this much
 SENS = 30.0             # a mutant rule counts as "distinguishable" if it moves the result by > SENS * tol
 
 # ------------------------------------------------------------------------------------------------
@@ -108,13 +109,13 @@ def rho0_of(nm):
 def bath_of(nm, kind):
     s = 1.0 if kind == "ohmic" else 0.0
     if nm == "A":
-        return oq.Bath(0.5 * M.SZ, oq.PowerLawSD(alpha=0.25 * s, zeta=1.0, cutoff=3.0, cutoff_type="exponential",
+        return oq.Bath(0.5 * M.SZ, oq.PowerLawSD(alpha=0.5 * s, zeta=1.0, cutoff=3.0, cutoff_type="exponential",
                                                  temperature=0.4))
     if nm == "B":
         v = M.generic_unitary(3, 4)                                       # complex, non-symmetric
         op = v @ np.diag([1.0, 0.2, -0.7]).astype(complex) @ v.conj().T     # non-diagonal, non-degenerate
-        return oq.Bath(op, oq.PowerLawSD(alpha=0.2 * s, zeta=1.0, cutoff=2.5, cutoff_type="gaussian", temperature=0.0))
-    return oq.Bath(0.5 * M.SX, oq.PowerLawSD(alpha=0.15 * s, zeta=3.0, cutoff=4.0, cutoff_type="exponential",
+        return oq.Bath(op, oq.PowerLawSD(alpha=0.4 * s, zeta=1.0, cutoff=2.5, cutoff_type="gaussian", temperature=0.0))
+    return oq.Bath(0.5 * M.SX, oq.PowerLawSD(alpha=0.3 * s, zeta=3.0, cutoff=4.0, cutoff_type="exponential",
                                              temperature=1.0))
 
 
@@ -308,11 +309,28 @@ def check_times(tag, times, start, dt, n, bad):
 # ------------------------------------------------------------------------------------------------
 # family x / dec : the two methods against each other, each against Heun, decoupled systems against Tempo
 
+def exc_record(ex):
+    """-> bad-list entry 'exception:<Type>@<innermost oqupy function>'"""
+    import traceback
+    where = "?"
+    for fr in traceback.extract_tb(ex.__traceback__):
+        if "/oqupy/" in fr.filename:
+            where = fr.name
+    return {"bad": [(f"exception:{type(ex).__name__}@{where}", 0.0, f"{type(ex).__name__}: {ex}"[:160])], "exc": True}
+
+
+def cls_of(c, sig):
+    """violation class = input class | failure signature"""
+    if sig.startswith("exception:"):
+        return f"{c['fam']}|n={c['n']}|{sig}"
+    return f"{c['fam']}|eom={c['eom']}|{sig}"
+
+
 def run_x(case):
     try:
         return _run_x(case)
     except Exception as ex:  # noqa
-        return {"bad": [(f"exception:{type(ex).__name__}", 0.0, str(ex)[:160])], "exc": True}
+        return exc_record(ex)
 
 
 def _run_x(case):
@@ -326,7 +344,7 @@ def _run_x(case):
     rho0s = [rho0_of(nm) for nm in names]
     end = start + (n + 0.5) * dt
     bad, out = [], {}
-    tol_tr = C_TRUNC * epsrel * n
+    tol_tr = C_TRUNC * epsrel * max(n, 1)
 
     mft = oq.MeanFieldTempo(mfs, baths, prm, rho0s, a0, start_time=start)
     tm, sm, fm = unpack(mft.compute(end, progress_type="silent"))
@@ -414,7 +432,7 @@ def run_e(case):
     try:
         return _run_e(case)
     except Exception as ex:  # noqa
-        return {"bad": [(f"exception:{type(ex).__name__}", 0.0, str(ex)[:160])], "exc": True}
+        return exc_record(ex)
 
 
 def _run_e(case):
@@ -499,7 +517,8 @@ def alphabet(tier):
         "conf": ["1", "2", "3"],
         "start": [0.0, 1.0, -0.4],
         "dt": [0.1, 0.25],
-        "n": [1, 4] if q else [1, 2, 4],
+        "n": [1, 4] if q else [1, 2, 4],          # family exact
+        "n_x": [0, 1, 4] if q else [0, 1, 2, 4],   # families x / dec (0 = no step at all)
         "bath": ["none", "ohmic"],
         "epsrel": [1e-6] if q else [1e-5, 1e-8],
         "a0": [[0.6, -0.3]] if q else [[0.6, -0.3], [0.0, 0.0]],
@@ -514,7 +533,7 @@ def build_cases(tier):
     xs, es = [], []
     for fam in ("x", "dec"):
         for conf, bath, dt, n, epsrel, start, a0, eom in itertools.product(
-                al["conf"], al["bath"], al["dt"], al["n"], al["epsrel"], al["start"], al["a0"], al["eom"]):
+                al["conf"], al["bath"], al["dt"], al["n_x"], al["epsrel"], al["start"], al["a0"], al["eom"]):
             xs.append({"fam": fam, "eom": eom, "conf": conf, "start": start, "dt": dt, "n": n, "bath": bath,
                        "epsrel": epsrel, "a0": a0})
     for route, conf, dt, n, subdiv, start, a0, eom in itertools.product(
@@ -522,6 +541,17 @@ def build_cases(tier):
         es.append({"fam": "exact", "route": route, "eom": eom, "conf": conf, "start": start, "dt": dt, "n": n,
                    "a0": a0, "subdiv": subdiv})
     return xs, es
+
+
+def r3(x):
+    """3 significant digits for reported floats (run-to-run float jitter of separately truncated networks)"""
+    if isinstance(x, dict):
+        return {k: r3(v) for k, v in x.items()}
+    if isinstance(x, (list, tuple)):
+        return [r3(v) for v in x]
+    if isinstance(x, float):
+        return float(f"{x:.3g}")
+    return x
 
 
 def ckey(c):
@@ -564,12 +594,13 @@ def run(tier, seed):
 
     index = {ckey(c): r for c, r in zip(xs, xres)}
     n_bath_active = n_feedback_active = 0
+    infl_by_n = {}
     for c, r in zip(xs, xres):
         for sig, val, detail in r["bad"]:
-            rep.add(Violation(f"{c['fam']}|eom={c['eom']}|{sig}", f"{case_str(c)}: {detail}", dict(c, want=sig)))
+            rep.add(Violation(cls_of(c, sig), f"{case_str(c)}: {detail}", dict(c, want=sig)))
         if "x_state_dev" not in r:
             continue
-        tol_tr = C_TRUNC * c["epsrel"] * c["n"]
+        tol_tr = C_TRUNC * c["epsrel"] * max(c["n"], 1)
         note("x_state(trunc)", r["x_state_dev"], tol_tr)
         note("x_field(trunc)", r["x_field_dev"], tol_tr)
         for tag in ("mft", "ptroute"):
@@ -585,7 +616,7 @@ def run(tier, seed):
         monitored += cnt
         mon_worst = [max(mon_worst[0], tr), max(mon_worst[1], he), min(mon_worst[2], me)]
         for rname, dist in r["mutants"].items():
-            mut_note("x", rname, dist, TOL_HEUN * c["n"])
+            mut_note("x", rname, dist, TOL_HEUN * max(c["n"], 1))
         # measured effects: bath influence (partner with uncoupled bath), field feedback (partner 'dec')
         infl = fb = None
         if c["bath"] == "ohmic":
@@ -597,6 +628,9 @@ def run(tier, seed):
             if p is not None and "states" in p:
                 fb = float(np.abs(r["states"] - p["states"]).max())
         moved = r["field_range"] > 1e-2 and r["state_motion"] > 1e-2
+        if infl is not None:
+            k = f"n={c['n']}"
+            infl_by_n[k] = [min(infl_by_n.get(k, [9, 0])[0], infl), max(infl_by_n.get(k, [9, 0])[1], infl)]
         if infl is not None and infl > 0.02:
             n_bath_active += 1
         if fb is not None and fb > 0.01:
@@ -605,6 +639,8 @@ def run(tier, seed):
             active = moved and fb is not None and fb > 0.01 * (1 if c["n"] > 1 else 0.1)
         else:
             active = moved
+        if c["bath"] == "ohmic":
+            active = active and infl is not None and infl > BATH_MIN
         if active:
             nontrivial.add(ckey(c))
             eff("x/dec field range", r["field_range"])
@@ -616,7 +652,7 @@ def run(tier, seed):
 
     for c, r in zip(es, eres):
         for sig, val, detail in r["bad"]:
-            rep.add(Violation(f"exact|eom={c['eom']}|{sig}", f"{case_str(c)}: {detail}", dict(c, want=sig)))
+            rep.add(Violation(cls_of(c, sig), f"{case_str(c)}: {detail}", dict(c, want=sig)))
         if "state_dev" not in r:
             continue
         note(f"exact_{c['route']}_state", r["state_dev"], TOL_EXACT)
@@ -652,22 +688,26 @@ def run(tier, seed):
                 "x dt x n x subdiv_limit x initial field against the dense scheme.  Non-trivial (distinct by the "
                 "full parameter tuple): the field moves by >1e-2 and the states by >1e-2 and, for x, the measured "
                 "difference to the decoupled partner run is >1e-2 (>1e-3 for n=1); for exact: field range >1e-2, "
-                "field feedback on the states >1e-3 and (ancilla route) environment influence >0.05",
+                "field feedback on the states >1e-3 and (ancilla route) environment influence >0.05; x/dec cases with "
+                "coupled baths additionally need a measured bath influence (difference to the alpha=0 partner run) "
+                f">{BATH_MIN}",
         "samples": [xs[(seed * 37) % len(xs)], xs[len(xs) // 2 + 7], es[len(es) // 3]],
-        "max_dev": maxdev.get(wname, 0.0) if wname else 0.0,
+        "max_dev": r3(maxdev.get(wname, 0.0)) if wname else 0.0,
         "tolerance": f"truncation-limited: {C_TRUNC}*epsrel*n; exact scheme: {TOL_EXACT}; field vs Heun on own "
                      f"states: {TOL_HEUN}*n*max(1,|a|); record_all=False vs True: 1e-12",
-        "max_dev_over_tol": worst,
+        "max_dev_over_tol": r3(worst),
         "worst_check": wname,
-        "max_dev_by_check": maxdev,
-        "max_dev_over_tol_by_check": maxrel,
+        "max_dev_by_check": r3(maxdev),
+        "max_dev_over_tol_by_check": r3(maxrel),
         "comparisons_over_tolerance_by_check": failing,
-        "min_effect_sizes": min_eff,
+        "min_effect_sizes": r3(min_eff),
         "cases_with_bath_influence_gt_0.02": n_bath_active,
+        "bath_influence_min_max_by_n(ohmic vs alpha=0 partner)": r3(infl_by_n),
         "cases_with_field_feedback_gt_0.01": n_feedback_active,
-        "mutant_rules": mutant_stats,
+        "mutant_rules": r3(mutant_stats),
         "monitored_states": monitored,
-        "monitor_worst_truncated": {"trace_dev": mon_worst[0], "herm_dev": mon_worst[1], "min_eig": mon_worst[2]},
+        "monitor_worst_truncated": r3({"trace_dev": mon_worst[0], "herm_dev": mon_worst[1],
+                                       "min_eig": mon_worst[2]}),
     }
     rep.assumptions = [
         "Hamiltonians and rates of the alphabet are affine in t and real-linear in the field, so that the exponential "
@@ -687,12 +727,11 @@ def replay(rp):
     c = dict(rp)
     want = c.pop("want", None)
     r = run_e(c) if c["fam"] == "exact" else run_x(c)
-    sigs = [f"{c['fam']}|eom={c['eom']}|{sig}" for sig, _v, _d in r["bad"]]
-    w = f"{c['fam']}|eom={c['eom']}|{want}"
-    if w in sigs:            # report the class this replay file was written for first
-        sigs.remove(w)
-        sigs.insert(0, w)
-    obs = {"violations": sigs, "details": [d for _s, _v, d in r["bad"]]}
+    found = [(cls_of(c, sig), d) for sig, _v, d in r["bad"]]
+    w = cls_of(c, want) if want else None
+    found.sort(key=lambda x: x[0] != w)            # the class this replay file was written for first (stable)
+    sigs = [x[0] for x in found]
+    obs = {"violations": sigs, "details": [x[1] for x in found]}
     for k in ("x_state_dev", "x_field_dev", "state_dev", "field_dev"):
         if k in r:
             obs[k] = round(r[k], 10)
